@@ -113,6 +113,7 @@ def floors(tier):
         "rung_levels_checked": 500 * k,
         "schedules_with_sparse_reporters": 500 * k,
         "decided:skipped_rung_level": 300 * k,
+        "decided:max_t_stepped_over": 100 * k,
         "R:runs": 300 * k,
         "R:decided:rung_n>=2": 3000 * k,
         "suite:contract:Rung": 1000,
@@ -136,6 +137,9 @@ def expand(spec):
     # sparse reporters: some training scripts validate only every k-th level and so jump over rung levels
     # (tolerated by the stopping type: "milestone has been skipped"); decisions stay at own rung levels only
     p["strides"] = rng.choice([None, None, None, [1, 1, 2], [1, 2, 3], [2], [1, 3]])
+    # ... and some of them never report max_t itself but step over it (script validates every k-th epoch of its own,
+    # longer schedule): 'resource >= max_t' must still end the trial
+    p["overshoot"] = p["strides"] is not None and rng.random() < 0.5
     p.update({k: v for k, v in spec.items() if k != "seed"})
     return p
 
@@ -159,6 +163,8 @@ class Monitor:
         rush = p.get("rush_candidates", 0) > 0
         if kind == "max_t":
             o.count("decided:max_t_stop")
+            if level > p["max_t"]:
+                o.count("decided:max_t_stepped_over")
             if decision != "STOP":
                 o.violate("stop_at_max_resource", f"no_stop_at_max_t:got_{decision}", {"level": level, "max_t": p["max_t"]})
             return
@@ -325,12 +331,12 @@ def run_case(spec):
         return orig_add(trial_id, **kwargs)
 
     term.on_task_add = on_task_add
-    curves = gen.Curves(p["curves"], spec["seed"] + 1, p["max_t"])
+    curves = gen.Curves(p["curves"], spec["seed"] + 1, p["max_t"] + 4)  # a few levels beyond max_t for scripts that step over it
     mon = Monitor(o, p, sched, ref, brackets)
     vp = {
         "n_workers": p["n_workers"], "max_t": p["max_t"], "metric": "loss", "resource_attr": "epoch",
         "policy": p["policy"], "seed": spec["seed"] + 2, "max_trials": p["max_trials"],
-        "max_events": p["max_events"], "order": p.get("order"), "strides": p.get("strides"),
+        "max_events": p["max_events"], "order": p.get("order"), "strides": p.get("strides"), "overshoot": p.get("overshoot"),
     }
     if p.get("strides"):
         o.count("schedules_with_sparse_reporters")
